@@ -159,6 +159,27 @@ pub fn double_fault_case(i: u64, seed: u64, m: u64) -> Scenario {
     sc
 }
 
+/// handshake under a periodic loss pattern: on every link only every k-th of the first 80 packets gets through
+pub fn kth_case(i: u64, seed: u64) -> Scenario {
+    let c = i % NBASE;
+    let k = 2 + (i / NBASE) % 5;
+    let phase = (i / NBASE / 5) % 2;
+    let mut sc = base(c, seed ^ 0x4b7);
+    for (from, to) in all_links(&sc) {
+        for n in 1..=80u32 {
+            if (n as u64 + phase) % k != 0 {
+                sc.faults.push(Fault::Drop { from, to, k: n });
+            }
+        }
+    }
+    // 80 packets at one handshake retry per 200 ms can take 16 s: timeouts far above
+    sc.notify_ms = 20_000;
+    sc.timeout_ms = 60_000;
+    sc.ticks = 1400;
+    sc.settle = 380;
+    sc
+}
+
 pub fn gen_bursts(tier: Tier) -> BoxedStrategy<Scenario> {
     let mut p = GenParams::default();
     p.windows = vec![(3, 0), (3, 1), (2, 2), (2, 4), (3, 8), (1, 12)];
@@ -222,6 +243,9 @@ pub fn run_prop(ctx: &Ctx) -> PropReport {
             "k=2 sample: every 37th case of the double-fault enumeration (second fault within 8 packets on the same or the reverse link)",
             n / 37, move |i| double_fault_case(i * 37, seed, m), eval, false));
     }
+    rep.part(|| run_enum(ctx, "handshake_every_kth",
+        "the 72 base configs x k in 2..=6 x 2 phases: on every link only every k-th of the first 80 packets gets through (handshake and first inputs), then a clean network; same liveness oracle: every session must reach Running and advance",
+        NBASE * 5 * 2, move |i| kth_case(i, seed), eval, true));
     let tier = ctx.tier;
     rep.part(|| run_random(ctx, "bursts",
         "random: 2-3 peers (+spectators with window 0 / 1 / host's), windows {0,1,2,4,8,12}, up to 3 burst outages (0.1-1.8 s, 1.8 s in total, i.e. below the 3.5 s timeout and below the 128-frame unacknowledged-input window) in one or both directions on random links, loss up to 40% / dup / reorder during the faulty phase; then 6 s clean; same liveness oracle",
